@@ -298,6 +298,37 @@ def concrete(repo, seed, tier):
                                         if not same:
                                             return ev, dict(function="srs", freq=freq.tolist(), stype=stype, ic=ic, getresp=getresp, columns=ncol_, rolloff=roll, workers=ncpu,
                                                             what="parallel result (%d input columns) is not bit-identical to serial" % ncol_)
+        # how the caller stores the inputs is not part of the problem: strided views of a larger record, Fortran order, float32 / integer-typed signals; frequencies as
+        # float32 / integer arrays or lists - the workers must see the numbers the serial loop sees
+        raw = rng.randn(480, 6) + 0.2
+        sigviews = [("strided view raw[::2, 1:4]", raw[::2, 1:4]), ("Fortran-ordered", np.asfortranarray(raw[:240, :3])), ("transposed view", np.ascontiguousarray(raw[:240, :3].T).T),
+                    ("float32", raw[:240, :3].astype(np.float32)), ("int16", np.round(40 * raw[:240, :3]).astype(np.int16)), ("1-D strided view", raw[::2, 2])]
+        fbase = np.array([10.0, 30.0, 20.0, 45.0])
+        freqforms = [("float64", fbase), ("float32", fbase.astype(np.float32)), ("int64", fbase.astype(np.int64)), ("list", [10.0, 30.0, 20.0, 45.0]), ("strided view", np.repeat(fbase, 2)[::2])]
+        for vname, sv in sigviews:
+            for fname, fq in (freqforms if vname.startswith("strided") else freqforms[:2]):
+                for ic, getresp in (("zero", False), ("zero", True), ("steady", False)):
+                    with np.errstate(all="ignore"):
+                        keep_ = np.array(sv, copy=True)
+                        ref = srs.srs(sv, sr, fq, 20, ic=ic, getresp=getresp, parallel="no", rolloff="none")
+                        FakePool.order = lambda n: list(range(n))[::-1]
+                        got = srs.srs(sv, sr, fq, 20, ic=ic, getresp=getresp, parallel="yes", maxcpu=2, rolloff="none")
+                    ev += 1
+                    a = ref[0] if getresp else ref
+                    b = got[0] if getresp else got
+                    same = np.array_equal(a, b, equal_nan=True) and (not getresp or np.array_equal(ref[1]["hist"], got[1]["hist"], equal_nan=True)) and np.array_equal(keep_, sv)
+                    if not same:
+                        return ev, dict(function="srs", signal=vname, frequencies=fname, ic=ic, getresp=getresp, max_difference=float(np.nanmax(abs(np.asarray(a, float) - np.asarray(b, float)))),
+                                        what="parallel result is not bit-identical to serial when the signal is given as a %s array and the frequencies as %s" % (vname, fname))
+        sigf = rng.randn(900)
+        for fname, fq in freqforms:
+            reff = fdepsd.fdepsd(sigf, 400.0, fq, 20, nbins=10, parallel="no")
+            FakePool.order = None
+            gotf = fdepsd.fdepsd(sigf, 400.0, fq, 20, nbins=10, parallel="yes", maxcpu=2)
+            ev += 1
+            for nm in ("psd", "peakamp", "binamps", "count", "var", "srs", "di_sig"):
+                if not np.array_equal(np.asarray(getattr(reff, nm)), np.asarray(getattr(gotf, nm)), equal_nan=True):
+                    return ev, dict(function="fdepsd", frequencies=fname, output=nm, what="parallel result is not bit-identical to serial when the frequencies are given as %s" % fname)
         # peak statistics that sum over time (rms) on several columns; long frequency vectors relative to the number of workers (23, 31, 45 frequencies on 1-2 workers)
         sigr = rng.randn(260, 3)
         for pk in ("rms", "abs", "poss"):
